@@ -101,8 +101,17 @@ pub fn config_of(scn: &Value, dir: &std::path::Path) -> (Value, Value) {
             k => json!({"type": "factor", "factor": k as f64}),
         }
     };
-    let real_weights = json!({"distance": jf(&scn["wd"]), "time": jf(&scn["wt"])});
-    let real_rates = json!({"distance": rate_json(ji(&scn["rd"])), "time": rate_json(ji(&scn["rt"]))});
+    let mut real_weights = json!({"distance": jf(&scn["wd"]), "time": jf(&scn["wt"])});
+    let mut real_rates = json!({"distance": rate_json(ji(&scn["rd"])), "time": rate_json(ji(&scn["rt"]))});
+    // a feature that does not count may be left out of the mappings altogether instead of being weighted zero
+    if scn["omit_zero"].as_bool().unwrap_or(false) {
+        for (k, w) in [("distance", "wd"), ("time", "wt")] {
+            if jf(&scn[w]) == 0.0 {
+                real_weights.as_object_mut().unwrap().remove(k);
+                real_rates.as_object_mut().unwrap().remove(k);
+            }
+        }
+    }
     let mut cost = json!({"cost_aggregation": "sum"});
     if scn["cost_src"].as_str().unwrap_or("config") == "query" {
         cost["weights"] = json!({"distance": 7.0, "time": 0.25});
@@ -128,12 +137,18 @@ pub fn config_of(scn: &Value, dir: &std::path::Path) -> (Value, Value) {
     }
     if let Some(bad) = scn["bad"].as_array() {
         if !bad.is_empty() || scn["force_turn_model"].as_bool().unwrap_or(false) {
-            let mut txt = String::from("prev_edge_id,next_edge_id\n");
-            for b in bad {
-                txt.push_str(&format!("{},{}\n", ju(&b[0]) - 1, ju(&b[1]) - 1));
+            let parts = if scn["split_models"].as_bool().unwrap_or(false) { 2 } else { 1 };
+            for part in 0..parts {
+                let mut txt = String::from("prev_edge_id,next_edge_id\n");
+                for (i, b) in bad.iter().enumerate() {
+                    if i % parts == part {
+                        txt.push_str(&format!("{},{}\n", ju(&b[0]) - 1, ju(&b[1]) - 1));
+                    }
+                }
+                let f = format!("turn_restrictions{}.csv", part);
+                std::fs::write(p(&f), txt).unwrap();
+                models.push(json!({"type": "turn_restriction", "turn_restriction_input_file": p(&f)}));
             }
-            std::fs::write(p("turn_restrictions.csv"), txt).unwrap();
-            models.push(json!({"type": "turn_restriction", "turn_restriction_input_file": p("turn_restrictions.csv")}));
         }
     }
     if scn["veh_on"].as_bool().unwrap_or(false) {
@@ -146,9 +161,14 @@ pub fn config_of(scn: &Value, dir: &std::path::Path) -> (Value, Value) {
         if scn["vr_order"].as_str().unwrap_or("edge") != "edge" {
             rows.sort_by_key(|r| (r.1, r.0));
         }
-        let txt = String::from("edge_id,restriction_name,restriction_value,restriction_unit\n") + &rows.iter().map(|r| r.2.clone()).collect::<String>();
-        std::fs::write(p("vehicle_restrictions.csv"), txt).unwrap();
-        models.push(json!({"type": "vehicle_restriction", "vehicle_restriction_input_file": p("vehicle_restrictions.csv")}));
+        let parts = if scn["split_models"].as_bool().unwrap_or(false) { 2 } else { 1 };
+        for part in 0..parts {
+            let txt = String::from("edge_id,restriction_name,restriction_value,restriction_unit\n")
+                + &rows.iter().enumerate().filter(|(i, _)| i % parts == part).map(|(_, r)| r.2.clone()).collect::<String>();
+            let f = format!("vehicle_restrictions{}.csv", part);
+            std::fs::write(p(&f), txt).unwrap();
+            models.push(json!({"type": "vehicle_restriction", "vehicle_restriction_input_file": p(&f)}));
+        }
         query["vehicle_parameters"] = scn["veh"].clone();
     }
     let frontier = match models.len() {
